@@ -41,5 +41,10 @@ pub fn autoplay(millis: u64) {
             None => break,
         };
         game.push_history(next_move);
+
+        // Same limit as the UCI interface, the state stack has no room for endless games
+        if game.len() >= 400 {
+            break;
+        }
     }
 }
